@@ -23,8 +23,8 @@
               if err != nil { if isClosed == 1 && currBuffer == nil { return } … if isNoDataError(err) { continue }; return }
               currBuffer = append(currBuffer, …)
               for { ParsePackage … PackageFull: t.handleConn(connSt, pkg) … } }    `dispatch c` (one per package)
-        deferred: for range tk.C { if numInvoke == 0 { break } }; conn.Close(); DoClose; idleTime = 0
-                                                                                   `drainClose c`
+        deferred: tk := NewTicker(500ms); for range tk.C { if numInvoke == 0 { break } }    `drainTick c` (first tick)
+                  conn.Close(); DoClose; idleTime = 0                              `drainClose c`
   * `handleConn`: `atomic.AddInt32(&numInvoke, 1)`, then `go handler()` (no pool) or
     `t.pool.JobQueue <- handler` (pool; blocks while the queue is full: `enqueue c`)  — inside `dispatch c`
   * handler of request i of connection c
@@ -89,6 +89,11 @@ structure Cfg where
   /-- `true`: the handler decrements `numInvoke` right after `invoke` returned, BEFORE `conn.Write(rsp)`
   (the variant of `C12_early_decrement_counterexample`); `false` (the code): after the write -/
   decEarly : Bool := false
+  /-- the deferred drain of `recv` is `for range tk.C { if numInvoke == 0 { break } }`: the test comes
+  after a receive from the 500 ms ticker, so a connection is closed one tick after its receive loop
+  returned at the earliest (the code); `false`: `for numInvoke > 0 { <-tk.C }` — the test comes first
+  (variant of `C12_no_first_tick_counterexample`) -/
+  drainFirstTick : Bool := true
 deriving DecidableEq, Repr
 
 /-- state of the handler closure of one dispatched request -/
@@ -148,7 +153,8 @@ inductive RPc
   | reading             -- in `conn.Read`
   | parse               -- `Read` returned data; in the inner loop over `currBuffer`
   | sending (i : Nat)   -- in `handleConn` at `t.pool.JobQueue <- handler` for request index i
-  | draining            -- `recv` returned; deferred function waits for `numInvoke == 0`
+  | drainWait           -- `recv` returned; the deferred function has started its ticker and has not tested yet
+  | draining            -- deferred function: testing `numInvoke == 0` (after each tick)
   | closed              -- deferred function closed the connection; `t.conns.Delete` done
 deriving DecidableEq, Hashable, Repr
 
@@ -171,6 +177,14 @@ structure Conn where
   rpc : RPc := .backlog
   /-- dispatched requests in dispatch order -/
   reqs : List Req := []
+  /-- the ticker of the deferred drain was created after `Shutdown`'s ticker (the receive loop returned
+  when `Shutdown` was already polling): its first tick comes after the poller's first tick -/
+  tickAfterPoll : Bool := false
+  /-- ghosts: what `sendCloseMsg` found when it ran: the connection already closed by the server / not
+  yet in the connection table; `sawNotify`: it ran while this connection existed -/
+  missedClosed : Bool := false
+  lateReg : Bool := false
+  sawNotify : Bool := false
   /-- ghost: request ids the client has sent -/
   sent : List Rid := []
   /-- those among them that need no response (one-way packets, requests answered with an empty response) -/
@@ -231,6 +245,10 @@ structure State where
   msgTo : List Cid := []
   /-- ghost: snapshot of the `CloseIdles` call that is running / ran last -/
   lastPass : List Cid := []
+  /-- the shutdown poller's first tick has fired (its first `CloseIdles` call has begun) -/
+  firstPoll : Bool := false
+  /-- ghost: the close message had been sent by the end of that first call's `sendCloseMsg` -/
+  fpNotified : Bool := false
 deriving DecidableEq, Hashable, Repr
 
 def init : State := {}
@@ -256,6 +274,7 @@ inductive Action
   | write (c : Cid) (i : Nat)
   | skip (c : Cid) (i : Nat)     -- the early return `if cPacketType == TARSONEWAY || len(rsp) == 0 { return }`
   | dec (c : Cid) (i : Nat)
+  | drainTick (c : Cid)    -- the deferred drain reaches its test of `numInvoke` for the first time
   | drainClose (c : Cid)
   | shutdownCall
   | setClosed
@@ -309,11 +328,20 @@ def cRead (n : Nat) (k : Conn) : Option Conn :=
 
 /-- `conn.Read` returns an error: `isClosed == 1 && currBuffer == nil` → return; a timeout → continue;
 anything else (EOF, closed descriptor, idle timeout) → return -/
-def cReadErr (isClosed fatal : Bool) (k : Conn) : Option Conn :=
+def cReadErr (polling isClosed fatal : Bool) (k : Conn) : Option Conn :=
   match k.rpc with
   | .reading =>
-    if (isClosed = true ∧ k.buf = []) ∨ fatal = true then some { k with rpc := .draining }
+    if (isClosed = true ∧ k.buf = []) ∨ fatal = true then
+      -- `return`: the deferred function runs: `tk := time.NewTicker(500 ms)`
+      some { k with rpc := .drainWait, tickAfterPoll := polling }
     else some { k with rpc := .top }
+  | _ => none
+
+/-- the deferred drain gets to its (first) test of `numInvoke`: after the first tick of its ticker
+(`for range tk.C { if … }`) or at once (`for … > 0 { <-tk.C }`); the timing condition is in `step` -/
+def cDrainTick (k : Conn) : Option Conn :=
+  match k.rpc with
+  | .drainWait => some { k with rpc := .draining }
   | _ => none
 
 def cAge (k : Conn) : Option Conn := some { k with stale := true }
@@ -403,7 +431,9 @@ def cCloseByIdles (k : Conn) : Conn := { k with srvClosed := true, byIdles := tr
 
 /-- `sendCloseMsg` on one map entry: `SetReadDeadline(now)`, `Write(closeMsg)` -/
 def cNotify (k : Conn) : Conn :=
-  if k.registered = true ∧ k.srvClosed = false then { k with notified := true } else k
+  if k.registered = true ∧ k.srvClosed = false then { k with notified := true, sawNotify := true }
+  else if k.srvClosed = true then { k with missedClosed := true, sawNotify := true }
+  else { k with lateReg := true, sawNotify := true }
 
 def cRecvRsp (i : Nat) (k : Conn) : Option Conn :=
   match k.reqs[i]? with
@@ -465,7 +495,8 @@ def step (cfg : Cfg) (s : State) : Action → Option State
   | .register c => updConn s c cRegister
   | .stamp c => updConn s c cStamp
   | .read c n => updConn s c (cRead n)
-  | .readErr c fatal => updConn s c (cReadErr s.isClosed fatal)
+  | .readErr c fatal =>
+    updConn s c (cReadErr (s.spc == .polling || s.spc == .returned true || s.spc == .returned false) s.isClosed fatal)
   | .age c => updConn s c cAge
   | .dispatch c => updConn s c (cDispatch (poolOn cfg))
   | .enqueue c =>
@@ -499,6 +530,14 @@ def step (cfg : Cfg) (s : State) : Action → Option State
   | .write c i => updConn s c (cWrite i)
   | .skip c i => updConn s c (cSkip cfg.decDeferred i)
   | .dec c i => updConn s c (cDec i)
+  | .drainTick c =>
+    match s.conns[c]? with
+    | some k =>
+      -- Both tickers have the same period: a drain ticker created after the shutdown poller's ticker
+      -- fires after the poller's first tick (timers are served in the order of their due times).
+      if cfg.drainFirstTick = true ∧ k.tickAfterPoll = true ∧ s.firstPoll = false then none
+      else updConn s c cDrainTick
+    | none => none
   | .drainClose c => updConn s c cDrainClose
   | .shutdownCall =>
     match s.spc with
@@ -533,7 +572,8 @@ def step (cfg : Cfg) (s : State) : Action → Option State
     | .polling, none =>
       let s1 := if s.listenClosed = 1 then notifyAll s else s
       some { s1 with pass := some { todo := registeredIds s1, all := true, holding := none },
-                     lastPass := registeredIds s1 }
+                     lastPass := registeredIds s1, firstPoll := true,
+                     fpNotified := if s.firstPoll then s.fpNotified else s1.listenClosed == 2 }
     | _, _ => none
   | .ciVisit c =>
     match s.pass with
@@ -611,6 +651,7 @@ def treeCfg (pool : Option (Nat × Nat)) : Cfg :=
     releaseAfterDrain := decide (Consts.srvHandleWaitsBeforeRelease ≥ 1),
     ci := if Consts.srvCloseIdlesCloses ≥ 1 then .asFound else .kickOnly,
     decDeferred := decide (Consts.srvInvokeDecDeferred ≥ 1),
-    decEarly := decide (Consts.srvInvokeDecDeferred = 0 ∧ Consts.srvInvokeDecBeforeWrite ≥ 1) }
+    decEarly := decide (Consts.srvInvokeDecDeferred = 0 ∧ Consts.srvInvokeDecBeforeWrite ≥ 1),
+    drainFirstTick := decide (Consts.srvRecvDrainTickFirst ≥ 1) }
 
 end Tars.ServerConn
